@@ -390,6 +390,14 @@ pub fn run(ctx: &mut Ctx) {
                             o.disease_row_order = Some(p.clone());
                             ctx.transitions(base.n_steps());
                             class.add(ctx, from_jax(&base, &o, transitive), &exp, path, &format!("disease rows {p:?}"), &case);
+                            // the same rows with a NOT-qualified twin of each (a second source that excludes the
+                            // term): before or after the rows that count
+                            for d in [crate::jax::Distractor::NotRowTwinsFirst, crate::jax::Distractor::NotRowTwinsLast] {
+                                let mut o = o.clone();
+                                o.distractors = vec![d.clone()];
+                                ctx.transitions(base.n_steps());
+                                class.add(ctx, from_jax(&base, &o, transitive), &exp, path, &format!("disease rows {p:?} with {d:?}"), &case);
+                            }
                         }
                     }
                     // is_a lines reversed
